@@ -387,7 +387,7 @@ impl VM {
             final(self).frames == old(self).frames, final(self).instructions == old(self).instructions, final(self).bp == old(self).bp,
     {
 //@LOOP 1 invariant self.stack@ == old(self).stack@.drop_last(), self.ip == old(self).ip + 2, self.frames == old(self).frames, self.instructions == old(self).instructions, self.bp == old(self).bp, idx == u16_at(old(self).instructions@, old(self).ip as int), idx <= 0xFFFF, self.globals@.len() >= old(self).globals@.len(), self.globals@.len() <= (if old(self).globals@.len() > idx { old(self).globals@.len() as int } else { idx + 1 }), forall|i: int| 0 <= i < old(self).globals@.len() ==> self.globals@[i] == old(self).globals@[i], forall|i: int| old(self).globals@.len() <= i < self.globals@.len() ==> self.globals@[i] == spec_null(), decreases idx + 1 - self.globals@.len()
-//@ARM file=vm.rs fn=run_code impl=VM arm="OpCode::SetGlobal" rules="R1;R4;R3[self.read_u16() as usize=>cast_u16_usize(self.read_u16())]"
+//@ARM file=vm.rs fn=run_code impl=VM arm="OpCode::SetGlobal" rules="R1;R4"
         Ok(())
     }
 
@@ -405,7 +405,7 @@ impl VM {
                 } else { r matches Err(Error::ReferenceError(_)) }
             }),
     {
-//@ARM file=vm.rs fn=run_code impl=VM arm="OpCode::GetGlobal" rules="R1;R4;R3[idx as usize=>cast_u16_usize(idx)]"
+//@ARM file=vm.rs fn=run_code impl=VM arm="OpCode::GetGlobal" rules="R1;R4"
         Ok(())
     }
 
@@ -578,7 +578,7 @@ impl VM {
             }),
     {
 //@LOOP 1 invariant old(self).stack@.len() >= num_args, num_args <= 255, args@.len() == __it.index@, self.stack@ =~= old(self).stack@.subrange(0, old(self).stack@.len() - __it.index@), self.ip == old(self).ip + 2, same_but_ip_stack(*old(self), *self), forall|j: int| 0 <= j < args@.len() ==> args@[j] == old(self).stack@[old(self).stack@.len() - 1 - j],
-//@ARM file=vm.rs fn=run_code impl=VM arm="OpCode::CallBuiltin" rules="R8[unsafe { std::mem::transmute::<u8, Builtin>(builtin) }=>builtin_from_u8(builtin)];R8[&args=>args.as_slice()];R1;R4;R10;R11;R3[self.read_u8() as usize=>cast_u8_usize(self.read_u8())]"
+//@ARM file=vm.rs fn=run_code impl=VM arm="OpCode::CallBuiltin" rules="R8[unsafe { std::mem::transmute::<u8, Builtin>(builtin) }=>builtin_from_u8(builtin)];R8[&args=>args.as_slice()];R1;R4;R10;R11"
         Ok(())
     }
 
@@ -602,7 +602,7 @@ impl VM {
             }),
     {
 //@LOOP 1 invariant old(self).stack@.len() >= length, vec@.len() == __it.index@, self.stack@ =~= old(self).stack@.subrange(0, old(self).stack@.len() - __it.index@), self.ip == old(self).ip + 2, same_but_ip_stack(*old(self), *self), forall|j: int| 0 <= j < vec@.len() ==> vec@[j] == old(self).stack@[old(self).stack@.len() - 1 - j],
-//@ARM file=vm.rs fn=run_code impl=VM arm="OpCode::Array" rules="R1;R4;R10;R11;R3[length as usize=>cast_u16_usize(length)]"
+//@ARM file=vm.rs fn=run_code impl=VM arm="OpCode::Array" rules="R1;R4;R10;R11"
         Ok(())
     }
 
